@@ -19,7 +19,7 @@ TReset == /\ IsEvent("reset")
           /\ lock' = None /\ tmu' = None /\ pc' = [p \in Procs |-> "idle"]
           /\ arg' = [p \in Procs |-> [t |-> CHOOSE t \in Tx : TRUE, pl |-> "none"]]
           /\ wbuf' = [p \in Procs |-> EmptyDisk] /\ todo' = [p \in Procs |-> MaxOffers]
-          /\ fails' = 0 /\ crashes' = 0 /\ corrupts' = 0 /\ tasks' = {}
+          /\ fails' = 0 /\ crashes' = 0 /\ corrupts' = 0 /\ dups' = 0 /\ tasks' = {}
           /\ calls' = {} /\ recalled' = {} /\ done' = {} /\ corrupted' = {} /\ hist' = <<>>
 
 TOffer == IsEvent("add.begin") /\ Offer(Ev.p, Ev.t, Ev.pl)
@@ -27,9 +27,16 @@ TOffer == IsEvent("add.begin") /\ Offer(Ev.p, Ev.t, Ev.pl)
 TRead == /\ IsEvent("read.done") /\ ReadVerify(Ev.p)
          /\ (Ev.res = "err") <=> (pc'[Ev.p] = "idle" /\ arg[Ev.p].t \notin disk.txs)
 \* the write function returned inside the transaction; logged: its outcome and the write set
-TWrite == /\ IsEvent("write.fn") /\ LockWrite(Ev.p)
-          /\ (Ev.res = "err") <=> (pc'[Ev.p] = "fnerr")
-          /\ wbuf'[Ev.p].txs = {t \in Tx : \E i \in 1..Len(Ev.stored) : Ev.stored[i] = t}
+StageOf(shelf) == CASE shelf = "documents" -> "tx" [] shelf = "ibltBucket" -> "iblt" [] shelf = "xorBucket" -> "xor" [] OTHER -> "?"
+TWrite == /\ IsEvent("write.fn")
+          /\ IF "late" \in DOMAIN Ev /\ Ev.res = "err" /\ pc[Ev.p] = "wlock" /\ arg[Ev.p].t \notin disk.txs
+                /\ arg[Ev.p].pl # "bad" /\ ~(Prevs(arg[Ev.p].t) = {} /\ Roots(disk.txs) # {})
+             THEN \* an injected storage error hit the write function in the middle (the fault is armed but the function may
+                  \* also have failed earlier for its own reasons: those cases take the ordinary branch)
+                  LockWriteLate(Ev.p, StageOf(Ev.late))
+             ELSE /\ LockWrite(Ev.p)
+                  /\ (Ev.res = "err") <=> (pc'[Ev.p] = "fnerr")
+                  /\ wbuf'[Ev.p].txs = {t \in Tx : \E i \in 1..Len(Ev.stored) : Ev.stored[i] = t}
 TCommit == IsEvent("commit") /\ Commit(Ev.p)
 TRollback == IsEvent("rollback") /\ Rollback(Ev.p)
 TOnRollback == IsEvent("rollback.hook.done") /\ OnRollback(Ev.p)
@@ -41,7 +48,7 @@ TReceive == /\ IsEvent("receive")
 \* job bookkeeping written back (Finished / retry counter)
 TShelf == /\ IsEvent("shelf.write")
           /\ \E k \in tasks : Ev.shelf = "_" \o k.s \o "_jobs" /\ NotifyMark(k)
-TWritePayload == IsEvent("writepayload") /\ WritePayload(Ev.t)
+TWritePayload == IsEvent("writepayload") /\ WritePayloadAny(Ev.t)
 TCorrupt == IsEvent("corrupt") /\ Corrupt(Ev.pg, Ev.g)
 TCheckPage == IsEvent("checkpage") /\ CheckPage(Ev.pg)
 TCrash == IsEvent("crash") /\ Crash
